@@ -4,6 +4,7 @@ import (
 	"reflect"
 	"sync"
 	"sync/atomic"
+	"time"
 
 	"verifharness/memnet"
 
@@ -31,6 +32,10 @@ type evlog struct {
 	// exitCh, if set, is signalled when the serve loop enters its exit path (hook point serve.exit);
 	// the hook then lingers briefly so that a request made at that signal overlaps the exit path
 	exitCh chan struct{}
+	// failGate, if set, holds the dialling goroutine at hook point hs.fail (it has received the failing
+	// CEA's error and is about to close errc) until the serve goroutine has handled the next CEA
+	failGate chan struct{}
+	gateOnce sync.Once
 }
 
 func (e *evlog) add(ev cnEvent) {
@@ -88,6 +93,18 @@ func installSMHook() {
 		sm.SetVerifHook(func(point string, obj interface{}, args ...interface{}) {
 			if l := logFor(obj); l != nil {
 				l.add(cnEvent{Ev: point})
+				if l.failGate != nil {
+					switch point {
+					case "hs.fail":
+						select {
+						case <-l.failGate:
+							time.Sleep(time.Millisecond) // handleCEA is past its own close by now
+						case <-time.After(300 * time.Millisecond):
+						}
+					case "cea.ok", "cea.ignore":
+						l.gateOnce.Do(func() { close(l.failGate) })
+					}
+				}
 			}
 		})
 	})
